@@ -10,6 +10,7 @@ import Driver.TopCmd
 import Driver.CatalogCmd
 import Driver.ExprCmd
 import Driver.EngineCrashCmd
+import Driver.CleanCmd
 /-! `driver`: one request per line on stdin, one answer per line on stdout. -/
 namespace Driver
 
@@ -23,6 +24,7 @@ structure St where
   catalog : CatalogSt := {}
   expr : ExprSt := {}
   crash : CrashSt := {}
+  clean : CleanSt := {}
 
 def step (st : St) (line : String) : St × String :=
   let (cmd, args) := parseLine line
@@ -59,6 +61,9 @@ def step (st : St) (line : String) : St × String :=
   else if cmd.startsWith "crash." then
     let (e, c, out) := crashHandle st.engine st.crash cmd args
     ({ st with engine := e, crash := c }, out)
+  else if cmd.startsWith "clean." then
+    let (s, out) := cleanHandle st.clean cmd args
+    ({ st with clean := s }, out)
   else if cmd == "ping" then (st, "pong")
   else (st, "bad-op")
 
